@@ -326,7 +326,9 @@ def ob_translation(r):
 
 
 # ---- aggregated sets ----------------------------------------------------------------------------------------------
-def ob_aggregated(imp, agg, k, batch, npts, reuse_buffer=False):
+def ob_aggregated(imp, agg, k, batch, npts, reuse_buffer=False, mixed=False):
+    """mixed: the first activation has a single degree, the others a batch of degrees (one input holds a value, another an array): the
+    single degree applies to every row"""
     """Aggregated(terms = k Activated(term_j, degree_j, implication)).membership(x) == fold(agg, 0, imp(degree_j, mu_j(x)))"""
 
     def run(ob):
@@ -353,6 +355,8 @@ def ob_aggregated(imp, agg, k, batch, npts, reuse_buffer=False):
                 for j in range(k):
                     buf[:] = sym_array(degs[j])
                     acts.append(fl.Activated(terms[j], buf, I))
+            elif mixed:
+                acts = [fl.Activated(terms[j], degs[j][0] if j == 0 else sym_array(degs[j]), I) for j in range(k)]
             else:
                 acts = [fl.Activated(terms[j], sym_array(degs[j]) if batch else degs[j][0], I) for j in range(k)]
             ag = fl.Aggregated("out", 0.0, 1.0, A, acts)
@@ -366,7 +370,8 @@ def ob_aggregated(imp, agg, k, batch, npts, reuse_buffer=False):
                 f"mus = {lit([[v[f'm{j}_{i}'] for i in range(npts)] for j in range(k)])}",
                 f"I, A = {'fl.NormLambda(lambda a, b: 0.25 * a + 0.5 * b)' if imp == 'Asymmetric' else 'fl.' + imp + '()'}, fl.{agg}()",
                 (f"buf = np.array(degs[0], dtype=float); acts = []\nfor j in range({k}):\n    buf[:] = degs[j]; acts.append(fl.Activated(Fixed(mus[j]), buf, I))" if reuse_buffer else
-                 f"acts = [fl.Activated(Fixed(mus[j]), {'np.array(degs[j])' if batch else 'degs[j][0]'}, I) for j in range({k})]"),
+                 (f"degs[0] = [degs[0][0]] * {B}; acts = [fl.Activated(Fixed(mus[j]), degs[j][0] if j == 0 else np.array(degs[j]), I) for j in range({k})]" if mixed else
+                  f"acts = [fl.Activated(Fixed(mus[j]), {'np.array(degs[j])' if batch else 'degs[j][0]'}, I) for j in range({k})]")),
                 "got = np.atleast_2d(fl.Aggregated('out', 0.0, 1.0, A, acts).membership(np.zeros((1, %d))))" % npts,
                 f"fi = lambda a, b: {py_imp}", f"fa = lambda a, b: {nspec.PY[agg]}",
                 "exp = []",
@@ -388,7 +393,7 @@ def ob_aggregated(imp, agg, k, batch, npts, reuse_buffer=False):
                 for i in range(npts):
                     y = z3.RealVal(0)
                     for j in range(k):
-                        y = fa(y, fi(degs[j][b].v, mus[j][i].v))
+                        y = fa(y, fi(degs[j][0 if (mixed and j == 0) else b].v, mus[j][i].v))
                     ob.prove(pre, p, is_val(got[b, i], y), f"aggregated/{imp}/{agg}/k{k}/{'batch' if batch else 'scalar'}[{b},{i}]", ins, rp)
 
     return run
@@ -430,6 +435,8 @@ def _obligations(tier, seed):
                     obs.append((f"aggregated/{imp}/{agg}/k{k}/{'batch' if batch else 'scalar'}", ob_aggregated(imp, agg, k, batch, npts)))
     for r in ((49, 98, 103, 1000) if tier == "quick" else (49, 98, 103, 107, 161, 187, 196, 197, 200, 500, 1000, 1023, 2000)):
         obs.append((f"sampling/r{r}", ob_sampling(r)))
+    for imp_, agg_ in (("Minimum", "Maximum"), ("AlgebraicProduct", "AlgebraicSum")):
+        obs.append((f"aggregated/{imp_}/{agg_}/k2/scalar+batch-degrees", ob_aggregated(imp_, agg_, 2, True, npts, mixed=True)))
     obs.append(("aggregated/Minimum/Maximum/k2/reused-degree-buffer", ob_aggregated("Minimum", "Maximum", 2, True, npts, reuse_buffer=True)))
     obs.append(("aggregated/AlgebraicProduct/UnboundedSum/k3/reused-degree-buffer", ob_aggregated("AlgebraicProduct", "UnboundedSum", 3, True, npts, reuse_buffer=True)))
     for agg in ("Maximum", "UnboundedSum"):
